@@ -6,3 +6,6 @@ import "github.com/skx/evalfilter/v2/code"
 
 // verifStep is a hook for the verification harness (build tag `verif`).
 func verifStep(vm *VM, ip int, op code.Opcode, arg int) {}
+
+// verifRun is a hook for the verification harness (build tag `verif`).
+func verifRun(vm *VM, ev string) {}
